@@ -98,6 +98,21 @@ func Gen(seed uint64, profile string) *Scenario {
 	genWorld(simkit.NewRNG(seed, "bw/world"), sc, &k)
 	genAdds(simkit.NewRNG(seed, "bw/adds"), sc, &k)
 	metaTwins(simkit.NewRNG(seed, "bw/meta-twins"), sc)
+	if dr := simkit.NewRNG(seed, "bw/shared-diag"); k.diags && len(sc.Pkgs) >= 2 && dr.Chance(1, 3) {
+		// the same warning (same text, same package-relative file) in two packages: a finder
+		// may well hand out one static value for it every time
+		n := 0
+		for pi := range sc.Pkgs {
+			for mi := range sc.Pkgs[pi].Mods {
+				m := &sc.Pkgs[pi].Mods[mi]
+				if m.SubPath == "" && len(m.Diags) == 0 && n < 3 {
+					m.Diags = []Diag{{ID: "diag-shared-" + m.Finder, Sev: "W", File: "main.tf"}}
+					n++
+					break
+				}
+			}
+		}
+	}
 	if profile == "faultbase" && len(sc.Regs) > 0 {
 		// the same registry package referenced twice in one build (first path and cached path),
 		// so that a fault on the first reference is followed by a second reference
